@@ -25,7 +25,8 @@ func init() {
 			"NOT decided: the shortest-run / left-to-right choice for all lists as an algorithmic property (only the shape facts R3–R5), mismatched-dots semantics, printer layout." +
 			" R14 a rewrite lands in the slot it matched (parent.<name>[index] of the current match)." +
 			" R2 also: every '...' closes a section; R7 also: connectDots covers every '+' elision before it reports success." +
-			" R15 who interprets an elision: *pgo.Dots is recognised only by the elision tests handed to compileSliceDots, by compileForStmt and by the implicit-elision helpers (inventory: a further place is reported for review).",
+			" R15 who interprets an elision: *pgo.Dots is recognised only by the elision tests handed to compileSliceDots, by compileForStmt and by the implicit-elision helpers (inventory: a further place is reported for review)." +
+			" R16 the start of the patch is read before splitPatch moves the lines past their markers.",
 		Trusted:     commonTrusted,
 		Assumptions: commonAssumptions,
 	})
@@ -45,6 +46,9 @@ func runC04(r *an.Run) {
 	matcherNumericConditions(r, "R13-length-decisions-on-measured-lengths")
 	slotIsTheRecordedSlot(r, "R14-a-rewrite-lands-in-the-slot-it-matched")
 	whoInterpretsAnElision(r, "R15-who-interprets-an-elision")
+	// whether a leading "..." is the implicit one is decided against the start of the patch: that position
+	// is read before the lines are moved past their markers
+	positionsReadBeforeStrip(r, "R16-the-patch-start-is-read-before-the-markers-are-stripped")
 }
 
 const tokIDENT = 4
@@ -1057,20 +1061,45 @@ func c04ImplicitDots(r *an.Run) {
 		if f == nil || ds == nil {
 			continue
 		}
+		// the wrapping may live in a helper shared by the two sides (surroundWithDots(fset, list, start, end)):
+		// then the helper is looked at, and what it says about its parameters is read as said about the
+		// arguments f hands it
+		host := f
+		lift := func(v ssa.Value) string { return an.Path(v) }
+		if len(callsToFunc(f, ds)) == 0 {
+			for _, hc := range an.Calls(f) {
+				h := an.StaticCallee(hc)
+				if h == nil || !an.InModule(h) || h.Blocks == nil || len(callsToFunc(h, ds)) == 0 || len(h.Params) != len(hc.Common().Args) {
+					continue
+				}
+				host = h
+				actuals := hc.Common().Args
+				lift = func(v ssa.Value) string {
+					p := an.Path(v)
+					for i, prm := range h.Params {
+						name := an.ParamName(prm)
+						if p == name || strings.HasPrefix(p, name+".") || strings.HasPrefix(p, name+"[") {
+							if ap := an.Path(actuals[i]); ap != "" {
+								return ap + p[len(name):]
+							}
+						}
+					}
+					return p
+				}
+			}
+		}
 		var args []string
 		var calls []ssa.CallInstruction
-		for _, c := range an.Calls(f) {
-			if an.StaticCallee(c) == ds {
-				args = append(args, an.Path(c.Common().Args[0]))
-				calls = append(calls, c)
-			}
+		for _, c := range callsToFunc(host, ds) {
+			args = append(args, lift(c.Common().Args[0]))
+			calls = append(calls, c)
 		}
 		good := len(args) == 2 && args[0] == "c.patchStart" && args[1] == "c.patchEnd" && reachesBlock(calls[0].Block(), calls[1].Block()) && !reachesBlock(calls[1].Block(), calls[0].Block())
 		r.Check(good, short(f)+"|wrapped", f.Pos(), "a statement pattern is wrapped in a leading (patchStart) and a trailing (patchEnd) implicit '...' (got %v)", args)
 		// only for non-empty lists, and the pattern's own statements go in between
 		mid := false
-		for _, c := range an.CallsTo(f, "builtin:append") {
-			if strings.HasSuffix(an.Path(c.Common().Args[1]), ".List") {
+		for _, c := range an.CallsTo(host, "builtin:append") {
+			if strings.HasSuffix(lift(c.Common().Args[1]), ".List") {
 				mid = len(calls) == 2 && reachesBlock(calls[0].Block(), c.Block()) && !reachesBlock(c.Block(), calls[0].Block()) && (c.Block().Dominates(calls[1].Block()))
 			}
 		}
@@ -1090,17 +1119,17 @@ func c04ImplicitDots(r *an.Run) {
 			for _, cnd := range conds {
 				c2, _ := an.StripNot(cnd)
 				if cmp, ok := c2.(*ssa.BinOp); ok {
-					if sub, _, isEmp := emptinessTest(cmp); isEmp && strings.HasSuffix(an.Path(sub), ".List") {
+					if sub, _, isEmp := emptinessTest(cmp); isEmp && strings.HasSuffix(lift(sub), ".List") {
 						continue // the non-empty test
 					}
 				}
 				sl := preciseSlice(cnd)
 				seesStart, seesFirst := false, false
 				for v := range sl {
-					if strings.HasSuffix(an.Path(v), ".patchStart") {
+					if strings.HasSuffix(lift(v), ".patchStart") {
 						seesStart = true
 					}
-					if strings.HasSuffix(an.Path(v), ".List") || strings.HasSuffix(an.Path(v), ".List[]") {
+					if strings.HasSuffix(lift(v), ".List") || strings.HasSuffix(lift(v), ".List[]") {
 						seesFirst = true
 					}
 				}
@@ -1116,7 +1145,7 @@ func c04ImplicitDots(r *an.Run) {
 				if iff, ok := cd.Block.Instrs[len(cd.Block.Instrs)-1].(*ssa.If); ok {
 					c2, _ := an.StripNot(iff.Cond)
 					if cmp, ok := c2.(*ssa.BinOp); ok {
-						if sub, _, isEmp := emptinessTest(cmp); isEmp && strings.HasSuffix(an.Path(sub), ".List") {
+						if sub, _, isEmp := emptinessTest(cmp); isEmp && strings.HasSuffix(lift(sub), ".List") {
 							continue
 						}
 					}
@@ -1132,6 +1161,17 @@ func c04ImplicitDots(r *an.Run) {
 	if len(fps) == 2 {
 		r.Check(strings.Join(fps[0], "\n") == strings.Join(fps[1], "\n"), "compilePGoStmtList|siblings", 0, "matcher and replacer side build the same wrapped list%s", firstDiff(fps[0], fps[1]))
 	}
+}
+
+// callsToFunc lists the calls in f whose static callee is g.
+func callsToFunc(f, g *ssa.Function) []ssa.CallInstruction {
+	var out []ssa.CallInstruction
+	for _, c := range an.Calls(f) {
+		if an.StaticCallee(c) == g {
+			out = append(out, c)
+		}
+	}
+	return out
 }
 
 // mustPassWithout: with the given edges removed, every path from `from` to a
